@@ -12,6 +12,8 @@
  *   dissectf <pts> <bc> <failat> <text>                     -> dissectf <rc> <count> <dest null> out=<outstanding>
  *   bigreq   <stp> <nb> <N> <klen> <vlen|-1> [<N> <klen> <vlen|-1> ...] -> bigreq <rc> <required|->
  *   bigmalloc <stp> <nb> <N> <klen> <vlen|-1> [...]        -> bigmalloc <rc>
+ *   bigcompose <stp> <nb> <maxChars> <N> <klen> <vlen|-1> [...] -> bigcompose <rc> <written> <nothing stored in front: 1|0>
+ *            (uriComposeQueryEx into a buffer of exactly maxChars characters that ends at an inaccessible page)
  *            (groups of N items sharing one key and one value string of 'a's)
  *   fn2uri   <unix> <text>                                  -> fn2uri <rc> <text> <guard>
  *   uri2fn   <unix> <absdoc> <text>                         -> uri2fn <rc> <text> <guard>
@@ -24,6 +26,8 @@
 #include <string.h>
 #include <wchar.h>
 #include <stdint.h>
+#include <sys/mman.h>
+#include <unistd.h>
 #include <uriparser/Uri.h>
 
 #ifdef DRV_WIDE
@@ -277,8 +281,14 @@ static CH *a_string(long len) {
 /* G groups of items <N> <klen> <vlen|-1>, one after the other in the list; the N items of a group
  * all point to the same key and value buffers (one buffer for both when klen == vlen) */
 static void op_big(int domalloc) {
-	const char *name = domalloc ? "bigmalloc" : "bigreq";
+	const char *name = domalloc == 2 ? "bigcompose" : domalloc ? "bigmalloc" : "bigreq";
 	int stp = atoi(fld[1]), nb = atoi(fld[2]);
+	long maxChars = 0;
+	if (domalloc == 2) {          /* bigcompose <stp> <nb> <maxChars> groups...: drop the capacity field */
+		maxChars = atol(fld[3]);
+		for (int i = 3; i + 1 < nfld; i++) fld[i] = fld[i + 1];
+		nfld--;
+	}
 	int G = (nfld - 3) / 3, ok = 1;
 	if (G < 1 || nfld != 3 + 3 * G) { printf("%s ?fields", name); return; }
 	CH **kb = calloc((size_t)G, sizeof(*kb)), **vb = calloc((size_t)G, sizeof(*vb));
@@ -303,6 +313,26 @@ static void op_big(int domalloc) {
 		int req = -777;
 		int rc = F(ComposeQueryCharsRequiredEx)(nodes, &req, stp, nb);
 		if (rc == 0) printf("bigreq 0 %d", req); else printf("bigreq %d -", rc);
+	} else if (domalloc == 2) {
+		/* the destination holds exactly maxChars characters and ends where an inaccessible page begins:
+		 * a store beyond the capacity faults at once */
+		long pg = sysconf(_SC_PAGESIZE);
+		size_t bytes = (size_t)(maxChars > 0 ? maxChars : 1) * sizeof(CH);
+		size_t span = ((bytes + (size_t)pg - 1) / (size_t)pg) * (size_t)pg;
+		char *m = mmap(NULL, span + (size_t)pg, PROT_READ | PROT_WRITE, MAP_PRIVATE | MAP_ANONYMOUS, -1, 0);
+		if (m == MAP_FAILED) printf("bigcompose nomem");
+		else {
+			mprotect(m + span, (size_t)pg, PROT_NONE);
+			CH *dest = (CH *)(m + span - bytes);
+			memset(m, 0x5a, span);
+			int written = -777;
+			int rc = F(ComposeQueryEx)(dest, nodes, (int)maxChars, &written, stp, nb);
+			/* nothing in front of the destination may change either */
+			int under = 1;
+			for (char *q = m; q < (char *)dest; q++) if (*q != 0x5a) { under = 0; break; }
+			printf("bigcompose %d %d %d", rc, written, under);
+			munmap(m, span + (size_t)pg);
+		}
 	} else {
 		CH *out = NULL;
 		int rc = F(ComposeQueryMallocEx)(&out, nodes, stp, nb);
@@ -376,6 +406,7 @@ int main(void) {
 		else if (!strcmp(op, "dissectf")) op_dissectf();
 		else if (!strcmp(op, "bigreq")) op_big(0);
 		else if (!strcmp(op, "bigmalloc")) op_big(1);
+		else if (!strcmp(op, "bigcompose")) op_big(2);
 		else if (!strcmp(op, "fn2uri")) op_fn2uri();
 		else if (!strcmp(op, "uri2fn")) op_uri2fn();
 		else if (!strcmp(op, "parseok")) op_parseok();
